@@ -5,7 +5,17 @@ cd "$(dirname "$0")"
 export CARGO_NET_OFFLINE=true
 mkdir -p work evidence
 python3 tools/gen_constants.py /repo lean/WowSrp/Gen/Constants.lean
-(cd lean && lake build wowsrp_model WowSrp WowSrp.Props.C01 WowSrp.Props.C02 WowSrp.Props.C03 WowSrp.Props.C04 WowSrp.Props.C05 WowSrp.Props.C06 WowSrp.Props.C07 WowSrp.Props.C08 WowSrp.Props.C09 WowSrp.Props.C09Vectors WowSrp.Props.C10 WowSrp.Props.C11 WowSrp.Props.C11Wrath WowSrp.Props.C12 WowSrp.Props.C12Wrath WowSrp.Props.C13 WowSrp.Props.C14 WowSrp.Props.C15 WowSrp.Props.C15Rng WowSrp.Props.C16 WowSrp.Props.C17 WowSrp.Props.C18 WowSrp.Props.C19 WowSrp.Props.CryptoVectors WowSrp.Props.System WowSrp.Props.Source.C01 WowSrp.Props.Source.C02 WowSrp.Props.Source.C03 WowSrp.Props.Source.C05 WowSrp.Props.Source.C06 WowSrp.Props.Source.C08 WowSrp.Props.Source.C09 WowSrp.Props.Source.C16 WowSrp.Props.Source.C17 WowSrp.Props.Source.C18)
+MODS=$(python3 - <<'PY'
+import sys, importlib
+sys.path.insert(0, "tools")
+seen = []
+for i in range(1, 20):
+    for m in importlib.import_module("props.c%02d" % i).MODULES:
+        if m not in seen: seen.append(m)
+print(" ".join(seen))
+PY
+)
+(cd lean && lake build wowsrp_model WowSrp $MODS WowSrp.Props.C09Vectors WowSrp.Props.CryptoVectors WowSrp.Props.System)
 (cd harness && cargo build --release --offline)
 (cd harness && C_INCLUDE_PATH="$PWD/gmp_compat" cargo build --release --offline --no-default-features --features fast-math --target-dir target-fast)
 echo setup done
